@@ -35,6 +35,9 @@ func checkC17(ctx *Ctx, r *Report) {
 	c17AppendOnSharedSlice(ctx, r)
 	c17RenameArgumentsCovers(ctx, r)
 	c17MergedPathsPrefixed(ctx, r)
+	c03MapOrderIn(ctx, r, []string{"internal/veneers"})
+	c17ArgsAssignmentsNotAligned(ctx, r)
+	c17UnfoldTestsTarget(ctx, r)
 	// the copies veneers rely on
 	for _, m := range findCopyMethods(ctx) {
 		if m.pkg.PkgPath == astPkgPath {
@@ -1327,4 +1330,132 @@ func c17MergedPathsPrefixed(ctx *Ctx, r *Report) {
 	})
 	r.Count("reads of source paths in mergeBuilderInto", n)
 	r.Floor("reads of source paths in mergeBuilderInto", 2)
+}
+
+// c17ArgsAssignmentsNotAligned: an option's arguments and assignments are two lists of different lengths in general
+// (constants have no argument, map_to_index gives two arguments to one assignment): the assignment that uses an argument
+// is found by the argument's *name*. Indexing the assignments with the variable that indexes the arguments rewrites the
+// wrong assignment (or none) whenever the lists are not aligned. The constant index 0 (first/first, guarded by length
+// tests) is the repo's idiom for freshly derived options and is left to the conservation rules.
+func c17ArgsAssignmentsNotAligned(ctx *Ctx, r *Report) {
+	argT := ctx.LookupType("internal/ast", "Argument")
+	asgT := ctx.LookupType("internal/ast", "Assignment")
+	n := 0
+	for _, rel := range []string{"internal/veneers/option", "internal/veneers/builder"} {
+		p := ctx.Pkg(rel)
+		if p == nil {
+			continue
+		}
+		info := p.TypesInfo
+		elemOf := func(e ast.Expr) *types.Named {
+			if t := info.TypeOf(e); t != nil {
+				if sl, ok := t.Underlying().(*types.Slice); ok {
+					return namedOf(sl.Elem())
+				}
+			}
+			return nil
+		}
+		for _, file := range p.Syntax {
+			for _, d := range file.Decls {
+				fd, ok := d.(*ast.FuncDecl)
+				if !ok || fd.Body == nil {
+					continue
+				}
+				fobj, _ := info.Defs[fd.Name].(*types.Func)
+				argIdx := map[types.Object]bool{}
+				ast.Inspect(fd.Body, func(m ast.Node) bool {
+					if ix, ok := m.(*ast.IndexExpr); ok && elemOf(ix.X) == argT {
+						if id, ok := ast.Unparen(ix.Index).(*ast.Ident); ok {
+							argIdx[objOf(info, id)] = true
+						}
+					}
+					return true
+				})
+				// range keys over the assignments themselves are fine
+				ast.Inspect(fd.Body, func(m ast.Node) bool {
+					if rs, ok := m.(*ast.RangeStmt); ok && elemOf(rs.X) == asgT {
+						if id, ok := rs.Key.(*ast.Ident); ok {
+							delete(argIdx, info.Defs[id])
+						}
+					}
+					return true
+				})
+				ast.Inspect(fd.Body, func(m ast.Node) bool {
+					ix, ok := m.(*ast.IndexExpr)
+					if !ok || elemOf(ix.X) != asgT {
+						return true
+					}
+					id, ok := ast.Unparen(ix.Index).(*ast.Ident)
+					if !ok {
+						return true
+					}
+					n++
+					r.Check(!argIdx[objOf(info, id)], "effects/assignment-located-by-name", fmt.Sprintf("%s indexes assignments with %s", ctx.FuncName(fobj), id.Name), ix.Pos(), "the index does not come from the arguments list",
+						fmt.Sprintf("%s indexes the assignments with %s, which also indexes the arguments: the two lists are not aligned (constants have no argument, map_to_index gives two arguments to one assignment) — the wrong assignment is rewritten and the produced option assigns an argument it does not declare", ctx.FuncName(fobj), id.Name))
+					return true
+				})
+			}
+		}
+	}
+	r.Count("variable indexes into assignment lists in the veneers", n)
+	r.Floor("variable indexes into assignment lists in the veneers", 3)
+}
+
+// c17UnfoldTestsTarget: unfold_boolean replaces an option by two options assigning true / false to the option's target:
+// what has to be boolean is the *target* (the type at the end of the assignment path), not the argument — after
+// array_to_append the argument of a `[]bool` option is a bool while its target is still the list.
+func c17UnfoldTestsTarget(ctx *Ctx, r *Report) {
+	p := ctx.Pkg("internal/veneers/option")
+	if p == nil {
+		return
+	}
+	info := p.TypesInfo
+	var lit *ast.FuncLit
+	var fobj *types.Func
+	forEachVeneerClosure(ctx, func(pp *packages.Package, fd *ast.FuncDecl, fo *types.Func, l *ast.FuncLit) {
+		if fd.Name.Name == "UnfoldBooleanAction" && lit == nil {
+			lit, fobj = l, fo
+		}
+	})
+	if lit == nil {
+		r.Undecided("anchor lost: option.UnfoldBooleanAction")
+		return
+	}
+	defs := map[types.Object]ast.Expr{}
+	ast.Inspect(lit.Body, func(m ast.Node) bool {
+		if as, ok := m.(*ast.AssignStmt); ok && as.Tok == token.DEFINE && len(as.Lhs) == 1 && len(as.Rhs) == 1 {
+			if id, ok := as.Lhs[0].(*ast.Ident); ok {
+				defs[info.Defs[id]] = as.Rhs[0]
+			}
+		}
+		return true
+	})
+	n := 0
+	ast.Inspect(lit.Body, func(m ast.Node) bool {
+		be, ok := m.(*ast.BinaryExpr)
+		if !ok || (be.Op != token.EQL && be.Op != token.NEQ) {
+			return true
+		}
+		if !strings.HasSuffix(exprString(be.Y), "KindBool") && !strings.HasSuffix(exprString(be.X), "KindBool") {
+			return true
+		}
+		n++
+		// the tested value: root of the other side, through local definitions
+		side := be.X
+		if strings.HasSuffix(exprString(be.X), "KindBool") {
+			side = be.Y
+		}
+		src := exprString(side)
+		if ap := accessPathOf(info, side); ap.ok {
+			if d, ok := defs[ap.root]; ok {
+				src = exprString(d)
+			}
+		}
+		onTarget := strings.Contains(src, ".Path") && strings.Contains(src, "Last()")
+		r.Check(onTarget, "flow/unfold-tests-target", ctx.FuncName(fobj)+" boolean test", be.Pos(), "made on the type at the end of the assignment path",
+			fmt.Sprintf("unfold_boolean decides from %s whether the option is boolean: it is the assignment's target that receives true / false — after array_to_append a `[]bool` option has a bool argument and a list target, the unfolded options assign `true` to a list", src))
+		return true
+	})
+	r.Count("boolean tests in unfold_boolean", n)
+	r.Floor("boolean tests in unfold_boolean", 1)
 }
